@@ -120,7 +120,10 @@ peg::parser! {
             }
 
         rule single_char_bracket_member() -> (String, char) =
-            // Preserve escaped characters as-is.
+            // An escaped letter or digit stands for itself; in a regex, `\d`, `\w`, `\n`, ...
+            // would be a character class or an escape code.
+            ['\\'] [c if c.is_ascii_alphanumeric()] { (c.to_string(), c) } /
+            // Preserve other escaped characters as-is.
             ['\\'] [c] { (std::format!("\\{c}"), c) } /
             // Escape opening bracket.
             ['['] { (String::from(r"\["), '[') } /
